@@ -380,7 +380,7 @@ V("c17-523-bound", "fault", "C17", F + "plane_shape_families.py", "if not cls.S*
 V("c17-wrong-b", "fault", "C17", F + "plane_shape_families.py", "return ConvexPolyhedron(cls.make_vertices(a, 2, c))\n\n\nclass Family523", "return ConvexPolyhedron(cls.make_vertices(a, 1, c))\n\n\nclass Family523", rule="DOM-1")
 V("c17-plane-types-short", "fault", "C17", F + "plane_shape_families.py", "    _plane_types = np.array([2, 2, 2, 2, 0, 0, 0, 0, 1, 1, 1, 1, 1, 1])", "    _plane_types = np.array([2, 2, 2, 2, 0, 0, 0, 0, 1, 1, 1, 1, 1])", rule="TAB-1")
 V("c17-truncation-map", "fault", "C17", F + "plane_shape_families.py", "c = 3 - 2 * truncation", "c = 3 - truncation", rule="DOM-2")
-V("c17-prism-height", "fault", "C17", F + "common.py", "_make_ngon(n, z=h / 2, area=area),", "_make_ngon(n, z=h, area=area),", rule="UV-1")
+V("c17-prism-height", "fault", "C17", F + "common.py", "_make_ngon(n, z=h / 2, area=area)]", "_make_ngon(n, z=h, area=area)]", rule="UV-1")
 V("c17-pyramid-area", "fault", "C17", F + "common.py", "        area = 3 * volume / h\n", "        area = 2 * volume / h\n", rule="UV-1")
 V("c17-pyramid-apex", "fault", "C17", F + "common.py", "apex = [[0, 0, 3 * h / 4]]", "apex = [[0, 0, h / 2]]", rule="UV-1")
 V("c17-dipyramid-area", "fault", "C17", F + "common.py", "area = 1.5 * volume / h", "area = 3 * volume / h", rule="UV-1")
